@@ -66,7 +66,36 @@ type fakeClock struct {
 	// wake-up is gone again by the time the worker looks.
 	gate    chan struct{}
 	gateSeq int
-	held    map[uint64]int // Synchronize goroutine -> number of holds begun before it started
+	held    map[uint64]int  // Synchronize goroutine -> number of holds begun before it started
+	auth    map[uint64]bool // WaitExecution goroutines whose authorization takes until the hold ends
+}
+
+// gatedAuthorizer is the execute authorizer: it allows everything, but the authorization
+// of a WaitExecution call that was started with hold=1 takes until the hold is released
+// (the scheduler drops its lock around the authorizer, which "may block").
+type gatedAuthorizer struct {
+	auth.Authorizer
+	c *fakeClock
+}
+
+func (a gatedAuthorizer) Authorize(ctx context.Context, instanceNames []digest.InstanceName) []error {
+	a.c.mu.Lock()
+	g := a.c.gate
+	mine := a.c.auth[goid()]
+	a.c.mu.Unlock()
+	if g != nil && mine {
+		<-g
+	}
+	return a.Authorizer.Authorize(ctx, instanceNames)
+}
+
+func (c *fakeClock) markAuth() {
+	c.mu.Lock()
+	if c.auth == nil {
+		c.auth = map[uint64]bool{}
+	}
+	c.auth[goid()] = true
+	c.mu.Unlock()
 }
 
 func goid() uint64 {
@@ -468,7 +497,7 @@ func newWorld(cfg config) *world {
 		pqIDs: map[string]int{}, invKeys: map[int]invocation.Key{}, invRev: map[string]int{}, digests: map[string]int{},
 		clients: map[int]*call{}, syncs: map[string]*call{}, terms: map[int]*call{}, dkeys: map[string]int{}, pqSpec: map[int]string{}, sending: map[int]*sendGate{}}
 	w.an = &analyzerState{w: w, bg: -1, selCalls: map[int]int{}, learners: map[int]int{}}
-	allow := auth.NewStaticAuthorizer(func(digest.InstanceName) bool { return true })
+	var allow auth.Authorizer = gatedAuthorizer{auth.NewStaticAuthorizer(func(digest.InstanceName) bool { return true }), w.clk}
 	gen := func() (uuid.UUID, error) {
 		w.uuidN++
 		var u uuid.UUID
@@ -588,8 +617,12 @@ func (w *world) startWait(c, name int) {
 		u[i] = byte(n)
 		n >>= 8
 	}
+	slowAuth := w.clk.holding()
 	go func() {
 		defer w.guard("WaitExecution")
+		if slowAuth {
+			w.clk.markAuth()
+		}
 		err := w.bq.WaitExecution(&remoteexecution.WaitExecutionRequest{Name: u.String()}, &stream{w: w, c: c, ctx: ctx})
 		w.event(fmt.Sprintf("c%03d", c), fmt.Sprintf("ret c=%d code=%d", c, int(status.Code(err))))
 		w.mu.Lock()
